@@ -11,6 +11,11 @@ CHECKS = {
    note="Trusted: the reference demuxer in jxlw::container (40 lines, written from the format definition); Brotli limited to stored meta-blocks; payload sizes <= 12 bytes; sequences longer than the bound are not covered.",
    technique="explicit-state enumeration of box sequences x feed chunkings on the real parser vs reference demuxer",
    design_ref="4/C10", engine="mc"),
+ "C03": dict(category="exploration",
+   text="Every encoder configuration within 2 (quick) / 3 (thorough) deviations of a default over 17 dimensions (image size incl. multi-group, channel layout, bit depth 1..31 and float, sample pattern, 36 MA-tree shapes covering every predictor and property class, leaf offset/multiplier, weighted-predictor parameters, 28 transform stacks incl. RCT kinds/permutations, squeeze default/explicit, palette with explicit delta, implicit and negative indices, prefix/ANS coders, LZ77 header, global vs local tree, group size, passes, TOC permutation, buffer width) plus the full product predictor x tiny sizes x leaf variant x coder x width; each stream written by the independent reference writer jxlw, decoded by jxl-oxide and compared sample-exactly as integers.",
+   note="Trusted: jxlw (writer + reference inverse transforms, written from the format definition; agreed with the decoder on bring-up). Excluded as oracle-uncertain: dim_shift>0, implicit palette entries at depth>24, ec_upsampling>1. Images up to 300x70 / 257x129.",
+   technique="deviation-bounded exhaustive enumeration of encoder configurations vs independent reference encoder",
+   design_ref="4/C03", engine="mc"),
 }
 NOT_YET = "check not built yet in this round (work in progress; see DESIGN.md section 10)"
 NA = {}
